@@ -1,5 +1,7 @@
 //! Known-answer digest per enabled parameter set, for one feature configuration of fips204 (C17).
-//! Prints `KAT <set> <sha256 of pk || sk || (sig, verify ok, verify wrong-msg) x 4 modes || derived pk>`.
+//! Prints `KAT <set> <sha256 of pk || sk || (sig, verify ok, verify wrong-msg) x 4 modes || derived pk>` and, when a count N
+//! is given as second argument, `BULK <set> <sha256 of (pure signature of the message i, verify result) for i < N>` (rare
+//! boundary events in the rejection loop show up only over many messages).
 #![allow(unused_imports, unused_macros, dead_code)]
 use fips204::traits::{KeyGen, SerDes, Signer, Verifier};
 use fips204::Ph;
@@ -19,7 +21,7 @@ impl RngCore for Fixed {
 impl CryptoRng for Fixed {}
 
 macro_rules! kat {
-    ($m:ident, $name:expr, $seed:expr, $rnd:expr) => {{
+    ($m:ident, $name:expr, $seed:expr, $rnd:expr, $bulk:expr) => {{
         use fips204::$m as api;
         let (pk, sk) = api::KG::keygen_from_seed(&$seed);
         let pkb = pk.clone().into_bytes();
@@ -52,6 +54,19 @@ macro_rules! kat {
         let d = h.finalize();
         let hex: String = d.iter().map(|b| format!("{:02x}", b)).collect();
         println!("KAT {} {}", $name, hex);
+        if $bulk > 0 {
+            let mut hb = Sha256::new();
+            for i in 0..$bulk {
+                let m = (i as u32).to_le_bytes();
+                let mut rng = Fixed($rnd);
+                let s = sk2.try_sign_with_rng(&mut rng, &m, ctx).unwrap();
+                hb.update(&s);
+                hb.update(&[pk2.verify(&m, &s, ctx) as u8]);
+            }
+            let d = hb.finalize();
+            let hex: String = d.iter().map(|b| format!("{:02x}", b)).collect();
+            println!("BULK {} {}", $name, hex);
+        }
     }};
 }
 
@@ -66,10 +81,11 @@ fn main() {
     hr.update(&seed);
     hr.update(b"rnd");
     let rnd: [u8; 32] = hr.finalize().into();
+    let bulk: usize = if a.len() > 2 { a[2].parse().unwrap() } else { 0 };
     #[cfg(feature = "s44")]
-    kat!(ml_dsa_44, "44", seed, rnd);
+    kat!(ml_dsa_44, "44", seed, rnd, bulk);
     #[cfg(feature = "s65")]
-    kat!(ml_dsa_65, "65", seed, rnd);
+    kat!(ml_dsa_65, "65", seed, rnd, bulk);
     #[cfg(feature = "s87")]
-    kat!(ml_dsa_87, "87", seed, rnd);
+    kat!(ml_dsa_87, "87", seed, rnd, bulk);
 }
